@@ -181,7 +181,7 @@ def _get_event_subtypes(cls: type[Event]) -> list[str] | None:
 
 
 def _get_qualified_name(event: type[Event]) -> str:
-    return f"{event.__module__}.{event.__name__}"
+    return f"{event.__module__}.{event.__qualname__}"
 
 
 class EventValidationError(Exception):
